@@ -44,8 +44,15 @@ class Real:
         toks = []
         bad = False
         try:
-            for t in lexer.tokenize(sql):
-                toks.append(t)
+            with common.time_limit(30):
+                for t in lexer.tokenize(sql):
+                    if getattr(t, 'end', None) == t.index:
+                        # zero-length match: sly does not advance; the real loop would never end
+                        bad = 'Hang'
+                        break
+                    toks.append(t)
+        except common.HangDetected:
+            bad = 'Hang'
         except Exception as e:  # LexError
             bad = type(e).__name__
         return toks, bad
